@@ -968,6 +968,8 @@ def features(src, tree=None):
         toks = []
         f.add("untokenizable")
     brack = 0
+    hash_line = None
+    fs_brace = False
     quote_stack = []
     for t in toks:
         if t.type == tokenize.OP:
@@ -983,6 +985,8 @@ def features(src, tree=None):
             f.add("multiline_bracket")
         elif t.type == tokenize.COMMENT:
             f.add("comment")
+            if t.string.endswith("\\"):
+                f.add("comment_backslash_end")
             if brack > 0:
                 f.add("comment_in_bracket")
         elif t.type == tokenize.NUMBER:
@@ -1014,6 +1018,8 @@ def features(src, tree=None):
             if prev is not None and prev.type in (tokenize.STRING, tokenize.FSTRING_END):
                 f.add("implicit_concat")
         elif t.type == tokenize.FSTRING_END:
+            if prev is not None and prev.type == tokenize.FSTRING_START and len(t.string) == 3:
+                f.add("empty_triple_fstring")
             if quote_stack:
                 quote_stack.pop()
         elif t.type == tokenize.NAME:
@@ -1025,6 +1031,19 @@ def features(src, tree=None):
             q = t.string.lstrip("rRbBuU")[:1]
             if q == quote_stack[-1][0]:
                 f.add("fstring_nested_quote")
+        if t.type == tokenize.FSTRING_START:
+            fs_brace = False
+        if t.type == tokenize.FSTRING_MIDDLE:
+            if "{" in t.string or "}" in t.string:
+                fs_brace = True
+            if "#" in t.string and fs_brace:
+                f.add("fstring_escaped_brace_and_hash")
+        if t.type == tokenize.STRING and prev is not None and prev.type == tokenize.FSTRING_END:
+            f.add("fstring_then_plain_string")
+        if t.type in (tokenize.STRING, tokenize.FSTRING_MIDDLE) and "#" in t.string:
+            hash_line = t.end[0]
+        elif t.type == tokenize.OP and t.string == "(" and hash_line == t.start[0]:
+            f.add("hash_string_then_paren")
         if t.type not in (tokenize.NL, tokenize.COMMENT):
             prev = t
     if "\\\n" in src:
@@ -1047,6 +1066,8 @@ def features(src, tree=None):
                 f.add("lambda")
             if tn == "AsyncFunctionDef":
                 f.add("async")
+            if getattr(node, "returns", None) is not None:
+                f.add("annotations")
             if getattr(node, "type_params", None):
                 f.add("pep695")
             if getattr(node, "decorator_list", None):
@@ -1062,6 +1083,12 @@ def features(src, tree=None):
             f.add("pep695")
         elif tn == "Match":
             f.add("match")
+        elif tn == "MatchSequence":
+            seg = ast.get_source_segment(src, node) or ""
+            if not seg.startswith("["):
+                f.add("match_sequence_unbracketed")
+        elif tn == "arg" and node.annotation is not None:
+            f.add("annotations")
         elif tn == "TryStar":
             f.add("try_star")
         elif tn == "Nonlocal":
@@ -1087,6 +1114,10 @@ def features(src, tree=None):
             f.add("dict_unpack")
         elif tn == "Slice":
             f.add("slice")
+            if node.step is None and hasattr(node, "end_col_offset"):
+                seg = ast.get_source_segment(src, node) or ""
+                if seg.rstrip().endswith(":") and seg.count(":") >= 2 and node.upper is None or (node.upper is not None and (ast.get_source_segment(src, node) or "").rstrip().endswith(":")):
+                    f.add("slice_empty_step")
         elif tn == "With" or tn == "AsyncWith":
             f.add("with")
         elif tn == "Name" and node.id in ("match", "case", "type"):
